@@ -92,7 +92,10 @@ def worker_checks(i, q, wd, outf, lock):
     repo, ver = os.path.join(base, "repo"), os.path.join(base, "verif")
     os.makedirs(base, exist_ok=True)
     sh(["rsync", "-a", "--exclude", ".git", "/repo/", repo + "/"], "/", 120)
-    sh(["rsync", "-a", "--exclude", ".git", "--exclude", "replays", "--exclude", "seeded", "/verif/", ver + "/"], "/", 600)
+    # SWEEP_VERIF: a clean snapshot of /verif (git archive HEAD + the build caches) so that uncommitted work in
+    # progress in the live tree cannot disturb the sweep
+    sh(["rsync", "-a", "--exclude", ".git", "--exclude", "replays", "--exclude", "seeded",
+        os.environ.get("SWEEP_VERIF", "/verif").rstrip("/") + "/", ver + "/"], "/", 600)
     while True:
         try:
             m = q.get_nowait()
